@@ -170,3 +170,15 @@ class _:
         'settings-kept': lambda old, self: S.eq(self.keep_alive_interval, old.self.keep_alive_interval)
         & S.eq(self.temp_connection_timeout, old.self.temp_connection_timeout) & S.eq(self.outgoing_timeout, old.self.outgoing_timeout),
     }
+
+
+# ---- the client's internal send callbacks only log: they must not touch the connection (a healthy link stays up)
+for _fn in ('_ClientHelloTimeout', '_ChallengeResponseTimeout'):
+    @contract('connection.ClientServerConnection.' + _fn, props=['C12', 'C02'])
+    class _:
+        def setup(E):
+            from contracts.common import make_conn
+            return dict(self=make_conn(E, CSC, token=E.int('token'), time_client_hello_sent=E.real('hello_sent'),
+                                       connection_callback=None, server_public_key=None, session_salt=None, version=1,
+                                       last_latency_update_time=E.int('llut')), success=E.bool('success'))
+        modifies = []
